@@ -328,6 +328,10 @@ func fdSelectSimple(git glyph.ID) int {
 }
 
 func normaliseAngle(x float64) float64 {
+	if x >= -180 && x < 180 {
+		// already normalised; adding and subtracting 180 would round
+		return x
+	}
 	y := math.Mod(x+180, 360)
 	if y < 0 {
 		y += 360
